@@ -409,6 +409,15 @@ def m_get(it, recv, args, e, mod, discard):
     if isinstance(r, I.MapV):
         i = map_find(it, r, it.deref(args[0]))
         return none() if i is None else some(r.items[i][1])
+    if isinstance(r, list):
+        i = it.deref(args[0])
+        if not isinstance(i, int):
+            if not is_sym(i):
+                raise InternalError("slice::get with index %r" % (i,))
+            n = len(r)
+            k = it.ex.decide([i == j for j in range(n)] + [z3.Or(i >= n, i < 0)])
+            i = k if k < n else n
+        return some(r[i]) if 0 <= i < len(r) else none()
     raise InternalError("get on %s" % type(r).__name__)
 
 
